@@ -121,7 +121,7 @@ def rnStat (env : Env) : Stat → Stat
   | .do_ b l => .do_ (rnBlock env b) l
   | .while_ c b l => .while_ (rnExp env c) (rnBlock env b) l
   | .repeat_ b c l => .repeat_ (rnBlock env b) (rnExp (bBlock false env b).2 c) l
-  | .if_ cs bs l => .if_ (rnExps env cs) (rnBlocks env bs) l
+  | .if_ cs bs e l => .if_ (rnExps env cs) (rnBlocks env bs) e l
   | .fornum v vl i lim st b l =>
     .fornum (rnDecl d n' v vl) vl (rnExp env i) (rnExp env lim) (rnExp env st) (rnBlock ((v, vl) :: env) b) l
   | .forin ns es b l => .forin (rnParams d n' ns) (rnExps env es) (rnBlock (pushParams env ns) b) l
@@ -162,7 +162,7 @@ def frStat : Stat → Bool
   | .do_ b _ => frBlock b
   | .while_ c b _ => frExp c && frBlock b
   | .repeat_ b c _ => frBlock b && frExp c
-  | .if_ cs bs _ => frExps cs && frBlocks bs
+  | .if_ cs bs _ _ => frExps cs && frBlocks bs
   | .fornum v _ i lim st b _ => v != n' && frExp i && frExp lim && frExp st && frBlock b
   | .forin ns es b _ => ns.all (fun p => p.1 != n') && frExps es && frBlock b
   | .assign vars exps _ => frExps vars && frExps exps
@@ -377,7 +377,7 @@ theorem aStat : (st : Stat) → (env : Env) → frStat n' st = true → FreshEnv
     simp only [rnStat, bStat, List.map_append]
     rw [hb.1, hb.2.1, hc]
     (refine ⟨?_, ?_, hf⟩ <;> first | rfl | trivial)
-  | .if_ cs bs _, env, h, hf => by
+  | .if_ cs bs _ _, env, h, hf => by
     simp only [frStat, Bool.and_eq_true] at h
     simp only [rnStat, bStat, List.map_append, aExps cs env h.1 hf, aBlocks bs env h.2 hf]
     (refine ⟨?_, ?_, hf⟩ <;> first | rfl | trivial)
